@@ -118,16 +118,22 @@ def resolve (H : HashFam) (orc : Oracles) (ns did : String) : Option Json :=
         | none => none
     | _ => none
 
-/-- `DocumentHandler.ProcessOperation` on request bytes (given as text, size and JSON reading) -/
-def processOperation (H : HashFam) (orc : Oracles) (ns : String) (text : Option (List Char)) (size : Nat) (req : Option Json) :
+/-- the initial state `ProcessOperation` puts into the DID it returns: the canonical form of the
+    request as `model.CreateRequest` reads it (members the struct does not know are gone) -/
+def initialStateOf (j : Json) : Option String :=
+  match Parser.decodeCreate j, (GoJson.topObject j).bind fun top => GoJson.str top "type" with
+  | some c, some ty =>
+    (transformValue (createRequestJson ty c)).map fun canon => b64EncodeStr (bytesOfString (String.ofList canon))
+  | _, _ => none
+
+/-- `DocumentHandler.ProcessOperation` on request bytes (given as size and JSON reading) -/
+def processOperation (H : HashFam) (orc : Oracles) (ns : String) (_text : Option (List Char)) (size : Nat) (req : Option Json) :
     Option Json :=
   match Parser.parse H defaultCfg orc ns size req, req with
   | some op, some j =>
     if op.type ≠ .create then none
-    else match text.bind transform with
-      | some canon =>
-        createResponse H orc op.uniqueSuffix j size
-          (unpublishedInfo ns op.uniqueSuffix (b64EncodeStr (bytesOfString (String.ofList canon))))
+    else match initialStateOf j with
+      | some initial => createResponse H orc op.uniqueSuffix j size (unpublishedInfo ns op.uniqueSuffix initial)
       | none => none
   | _, _ => none
 
